@@ -786,6 +786,23 @@ Varable failures: {var_failed}
             tvar[:, :, 1] = hhmmss[:, None].repeat(tvar.shape[1], 1)
             self.SDATE = tvar[0, 0, 0]
             self.STIME = tvar[0, 0, 1]
+            if 'ETFLAG' in self.variables:
+                # end-time flags (CAMx) share the VAR axis with TFLAG
+                evar = self.variables['ETFLAG']
+                if (
+                    tuple(evar.dimensions) == tuple(tvar.dimensions) and
+                    evar.shape[0] == tvar.shape[0] and
+                    evar.shape[1] != tvar.shape[1] and evar.shape[1] > 0
+                ):
+                    evals = np.asarray(evar[:, :1, :])
+                    eprops = dict([(pk, evar.getncattr(pk))
+                                   for pk in evar.ncattrs()])
+                    del self.variables['ETFLAG']
+                    nevar = self.createVariable(
+                        'ETFLAG', 'i', tvar.dimensions)
+                    nevar[...] = evals.repeat(tvar.shape[1], 1)
+                    for pk, pv in eprops.items():
+                        setattr(nevar, pk, pv)
         else:
             if len(self.dimensions['VAR']) == 0:
                 return
